@@ -351,6 +351,40 @@ func runFDFailBranch(c *core.Ctx) {
 				return root != nil && root.Pos() >= loop.Body.Pos() && root.Pos() <= loop.Body.End()
 			}
 			c.Check(inLoop(call.Args[2]), "mainLoop:reply-per-poll", call.Pos(), "each poll decodes into its own reply variable", "polls share one reply variable: a late reply of an earlier poll can be read as the answer of the current one")
+			// every boolean / error local the poll's verdict depends on is the poll's own: a flag declared outside the loop and
+			// only ever set (e.g. timeout = true) stays set for all later polls
+			stale := ""
+			for _, blk := range e.Graph(fn).CFG.Blocks {
+				cd, _ := e.Graph(fn).Cond(blk)
+				if cd == nil || cd.Pos() < loop.Body.Pos() || cd.Pos() > loop.Body.End() {
+					continue
+				}
+				ast.Inspect(cd, func(k ast.Node) bool {
+					id, ok := k.(*ast.Ident)
+					if !ok {
+						return true
+					}
+					v, ok := info.Uses[id].(*types.Var)
+					if !ok || v.IsField() || v.Pkg() == nil {
+						return true
+					}
+					if v.Parent() == v.Pkg().Scope() {
+						return true // package-level (constants of the state enumeration etc.)
+					}
+					b, isBasic := v.Type().Underlying().(*types.Basic)
+					isFlag := isBasic && b.Kind() == types.Bool
+					isErr := types.Identical(v.Type(), types.Universe.Lookup("error").Type())
+					if !(isFlag || isErr) {
+						return true
+					}
+					if v.Pos() < loop.Body.Pos() || v.Pos() > loop.Body.End() {
+						stale = v.Name()
+					}
+					return true
+				})
+			}
+			c.Check(stale == "", "mainLoop:verdict-inputs-per-poll", call.Pos(), "the flags and errors the verdict tests are declared inside the poll loop",
+				"the poll's verdict tests `"+stale+"`, which is declared outside the loop: once set by one poll (a single late reply, a single error) it decides every later poll as well, so the detector never returns to alive")
 			c.Check(inLoop(call.Args[3]), "mainLoop:completion-per-poll", call.Pos(), "each poll has its own completion channel (nil => allocated per call)", "polls share one completion channel: a reply arriving after its timeout is taken for the completion of the next poll, whose zero-valued reply is then stored")
 			return true
 		})
